@@ -1207,6 +1207,12 @@ def typ_variants(d, allowed, rng, full):
     for k in absent:
         v2 = [x for x in allowed[k] if x is not False][0]
         out.append(("later-false", [[[a, b] for a, b in d] + [[k, v2]], [[k, False]]]))
+    # since 6301216 a numeric 0 is stored as False (French neg: rejected, so absent as well): 0 = absent
+    for k in absent:
+        out.append(("zero=absent", [[[a, b] for a, b in d] + [[k, 0]]]))
+        if k != "neg":
+            v2 = [x for x in allowed[k] if x is not False][0]
+            out.append(("later-zero", [[[a, b] for a, b in d] + [[k, v2]], [[k, 0]]]))
     out.append(("invalid", [[[a, b] for a, b in d] + [["foo", True]]]))
     out.append(("invalid", [[["foo", "bar"]], [[a, b] for a, b in d]]))
     out.append(("invalid", [[[a, b] for a, b in d], "notdict"]))
